@@ -461,6 +461,38 @@ def gen(repo):
         out.append("  | %s => %s" % (t, str(repacks[t]).lower()))
     out.append("  end.")
     meta["exec_rows"] = rows
+    # --- how the delete marks get their time: stamped with the plan time, or held back by the indexer and
+    #     re-stamped with the current time right before the index holding them is finalized
+    idx = read(repo, "crates/core/src/index/indexer.rs")
+    addrm = norm(fn_body(idx, "add_remove"))
+    plain = addrm == "self.add_with(pack, true)"
+    held = addrm == "if let Some(held) = &mut self.held_removals { held.push(pack); return Ok(()); } self.add_with(pack, true)"
+    if not (plain or held): raise ExtractError("Indexer::add_remove has an unrecognised shape: %r" % addrm)
+    has_hold = "indexer.hold_removals();" in npr
+    n_rel = npr.count("release_removals(")
+    n_fin = npr.count("indexer.finalize()?;") + npr.count("indexer.write().unwrap().finalize()?;")
+    if not has_hold and n_rel == 0:
+        restamped = False
+    elif has_hold and held:
+        rel = norm(fn_body(idx, "release_removals"))
+        if rel != "for mut pack in self.held_removals.take().unwrap_or_default() { if pack.time == Some(stamped) { pack.time = Some(now); } self.add_with(pack, true)?; } Ok(())":
+            raise ExtractError("Indexer::release_removals has an unrecognised shape: %r" % rel)
+        if norm(fn_body(idx, "hold_removals")) != "self.held_removals = Some(Vec::new());":
+            raise ExtractError("Indexer::hold_removals has an unrecognised shape")
+        n_pair = npr.count("indexer.release_removals(prune_time, Timestamp::now())?; indexer.finalize()?;")
+        if n_fin != 2 or n_pair != 2 or n_rel != 2:
+            raise ExtractError("prune_repository: held delete marks are not released right before every finalize of the index (%d finalize, %d release, %d paired)" % (n_fin, n_rel, n_pair))
+        if not (0 <= npr.find("indexer.hold_removals();") < npr.find("indexer.add_remove(")):
+            raise ExtractError("prune_repository: hold_removals does not precede the first add_remove")
+        if "let prune_time = prune_plan.time.timestamp();" not in npr:
+            raise ExtractError("prune_repository: prune_time is no longer the plan time")
+        restamped = True
+    else:
+        raise ExtractError("prune_repository: delete marks are neither stamped with the plan time nor held and released (hold=%s, release calls=%d, Indexer::add_remove holds=%s)" % (has_hold, n_rel, held))
+    out.append("(* delete marks written by this run: false = they carry the plan time; true = the indexer holds them back and")
+    out.append("   release_removals re-stamps those carrying the plan time with the current time before the index is finalized *)")
+    out.append("Definition marks_restamped : bool := %s." % str(restamped).lower())
+    meta["marks_restamped"] = restamped
     gen_repack(src, blob, out, meta)
     return "\n".join(out) + "\n", meta
 
